@@ -48,7 +48,7 @@ def strategy(tier):
         st.tuples(st.just('read'), i),
         st.tuples(st.just('observe'), st.booleans()),
     ).map(list)
-    return st.fixed_dictionaries({'kind': st.sampled_from(['fs', 'fs', 'bmap', 'bfs']),
+    return st.fixed_dictionaries({'kind': st.sampled_from(['fs', 'fs', 'bmap']),
                                   'ops': st.lists(op, min_size=3, max_size=n)})
 
 
